@@ -103,3 +103,55 @@ def check_C03(chk):
     chk.assumptions = ["TLC, CommunityModules", "independent tokenizer in the harness", "UTF-8 via str::as_bytes"]
     q = chk.tier == "quick"
     wire_pipeline(chk, "C03", "GenOp", 1, 2, harness_extra=["--trials", 6 if q else 16])
+
+
+TOTAL_CONST = dict(Pairing="byname", DepthLimit=32, ShortValue="error")
+
+
+def total_describe(ev):
+    k = ev.get("ev")
+    if k == "bomb":
+        return "structural bomb %s n=%s: child status %s, result %s" % (
+            ev.get("family"), ev.get("n"), ev.get("status"), json.dumps(ev.get("res"))[:300])
+    if k == "bytes3":
+        return "octet strings of class sequence %s after a valid header: outcomes %s" % (
+            ev.get("classes"), json.dumps(ev.get("outs")))
+    return "input %s (%s): sync=%s async=%s post=%s decoder=%s" % (
+        ev.get("case"), ev.get("mutation", ev.get("src")), json.dumps(trunc_json(ev.get("sync"), 200))[:300],
+        json.dumps(trunc_json(ev.get("async"), 200))[:300], ev.get("post"),
+        json.dumps(trunc_json(ev.get("dec"), 200))[:200])
+
+
+def check_C02(chk):
+    q = chk.tier == "quick"
+    chk.rule = ("inputs: (a) every octet string of <=3 octets after a valid header (length 3 strided 1/61 in the quick "
+                "tier), aggregated per tag-class sequence; (b) tag 0x00-0xff x value length {0..16,0xffff} x 5 fills, "
+                "complete and truncated, also through IppValue::parse; (c) with-language inner length pairs; (d) every "
+                "token sequence of MC_Total's 16-token alphabet up to MaxLen; (e) grammar-aware mutations of TLC's "
+                "well-formed streams; (f) structural bombs in child processes, sizes doubling to 256 KiB / 1 MiB. "
+                "Both parsers run on each input and the result is displayed, re-encoded, traversed, cloned, dropped. "
+                "distinct = inputs executed; judged by Trace_Total (no step for panic/abort/hang; exact result where "
+                "the RFC fixes it)")
+    chk.assumptions = ["crash detection is the harness's (catch_unwind, child exit status, 60 s timeout)",
+                       "TLC / CommunityModules", "harness tokenizer"]
+    build_harness()
+    wd = workdir("C02")
+    # M: totality of the parser state machine over all token sequences, + G
+    tokcases = os.path.join(wd, "tokcases.ndjson")
+    r = mc("C02", "mc_total", "MC_Total.tla", dict(TOTAL_CONST, MaxLen=4 if q else 5),
+           ["Total", "AcceptsRFC", "RejectsNonTag", "OnlyEndAccepts", "RunIsPrefix", "Gen"], case_file=tokcases,
+           coverage_actions=["Feed"])
+    chk.add_mc(r, "MC_Total MaxLen=%d" % (4 if q else 5))
+    # well-formed corpus for the mutations
+    wirecases = os.path.join(wd, "wirecases.ndjson")
+    r2 = mc("C02", "mc_wire", "MC_Wire.tla", dict(WIRE_CONST, MaxTok=5 if q else 6), ["ParserReadsRFC", "Gen"],
+            constraint="Bound", case_file=wirecases)
+    chk.add_mc(r2, "MC_Wire (mutation corpus) MaxTok=%d" % (5 if q else 6))
+    out = os.path.join(wd, "run")
+    harness("vh", ["total", "--out", out, "--seed", chk.seed, "--tier", chk.tier, "--tokcases", tokcases,
+                   "--wirecases", wirecases], timeout=5400)
+    run = run_sample(chk, out)
+    chk.extra["events"] = run["events"]
+    validate_with_retries(chk, "trace_total", "Trace_Total.tla", os.path.join(out, "trace.ndjson"),
+                          os.path.join(out, "trace.side.ndjson"), constants={"NestingDomain": 16},
+                          describe=total_describe)
